@@ -17,7 +17,7 @@ CLAIMED = {
     "C01": (
         "Hypothesis construct-by-inverse round trip: generate format + meaning, spell it from the grammar, parse, compare with an independent expected-Args model",
         "Generated formats x meanings x spellings are parsed (strict/lenient, argv/string) and all four result maps, access by "
-        "long/short/position and the set-predicates are compared with a model computed from the meaning alone.",
+        "long/short/position and the set-predicates are compared with a model computed from the meaning alone. Options carry explicit long / short name preferences; every result is also asked about itself (format, raw arguments, script name, command names, defined names and positions).",
         "DESIGN.md 4 C01",
         "",
     ),
@@ -32,7 +32,7 @@ CLAIMED = {
         "Hypothesis command trees x lines against a 25-line reference resolver; metamorphic alias / tail variants; selection also observed through run() with recording handlers",
         "Generated command trees (aliases, default/anonymous/hidden/disabled commands, stacked formats) and lines (valid, wrong token, "
         "unnameable command, undefined, partial, '--' tail) under a bare and the default application config; selected command, undefined / "
-        "no-default errors, parsed values and the set of handlers run are compared with the reference model.",
+        "no-default errors, parsed values and the set of handlers run are compared with the reference model. One command may be added to the running application after other lines were resolved; the configuration may be written in the fluent create_command style; the collections, predicates, lookups and parent links of the built application are compared with the tree.",
         "DESIGN.md 4 C03",
         "Parsability of default candidates is decided with the real parser (C01/C02's subject).",
     ),
@@ -41,7 +41,7 @@ CLAIMED = {
         "Every listed handler return value and every (exception kind x adversarial message) cell with cycling origins (generated module, "
         "deep and mutual recursion, exec'd / source-less code, cause chains) and pre-handle listener behaviours is run through "
         "Application.run with captured streams: no exception escapes, status in 0..255 with the stated zero/clamp rule, report printed "
-        "with the message text, exactly the selected handler invoked once.",
+        "with the message text, exactly the selected handler invoked once. Handlers come in five shapes (signatures, CallbackHandler, custom handler method); reports are also written to ASCII-only text streams.",
         "DESIGN.md 4 C04",
         "",
         "fault_enumeration",
@@ -57,14 +57,14 @@ CLAIMED = {
         "Hypothesis + bounded-exhaustive operation histories on the builder against a dict-based reference model; builder vs built format vs element-list constructor differential",
         "Op histories (add/set of options, command options, arguments, names) stacked on 0-2 base levels; after every op the "
         "complete public query table of builder, built format and reference model are compared; accept/reject decisions and the "
-        "element-list constructor are compared with the model.",
+        "element-list constructor are compared with the model. Formats taken earlier are asked again after every later builder operation (a finished format is a snapshot).",
         "DESIGN.md 4 C06",
         "",
     ),
     "C07": (
         "complete enumeration of flag words, names over a small alphabet and boundary conversions against tables written from the statement; Hypothesis text-form round trips",
         "All 2^13 option and 2^11 argument flag words x short presence x default kinds; all names of length <= 4 over 8 characters "
-        "bare and dash-prefixed; conversion of boundary texts and round trips of random ints/floats/booleans.",
+        "bare and dash-prefixed; conversion of boundary texts and round trips of random ints/floats/booleans. Names also over every Unicode code point; falsy defaults; non-text conversion inputs; set_default on every accepted object.",
         "DESIGN.md 4 C07",
         "",
     ),
@@ -73,7 +73,7 @@ CLAIMED = {
         "All 2^7 subsets of the global switches (long/short spellings) inserted at generated positions after the command path of 6 base "
         "lines under the default application config: quiet silence, verbosity level and visible message levels, ANSI forced / removed, "
         "question default without reading, help page equal to the directly rendered CommandHelp, version text, status 0 without the "
-        "handler, identical results for all placements, and no effect when the same tokens stand after '--'.",
+        "handler, identical results for all placements, and no effect when the same tokens stand after '--'. Runs draw streams that do / do not claim ANSI support; sessions of several runs on one application; handlers ask four kinds of questions and write to a section they create.",
         "DESIGN.md 4 C09",
         "",
     ),
@@ -81,7 +81,7 @@ CLAIMED = {
         "complete enumeration of the gate table (reflected entry points x verbosity x flags x quiet x formatter x stream kind) against the stated gate predicate",
         "Every public writer with a flags parameter found by reflection on IO/Output/SectionOutput (plus section clear/overwrite) is "
         "called on fresh objects for every verbosity, flag word, quiet setting and formatter; the marker reaches the stream iff the "
-        "stated predicate holds and the stream is untouched otherwise.",
+        "stated predicate holds and the stream is untouched otherwise. Texts include empty / newline-only / blank ones; setter histories include set_stream and set_formatter; in section histories a closed write must leave the stream unchanged.",
         "DESIGN.md 4 C10",
         "",
     ),
@@ -89,7 +89,7 @@ CLAIMED = {
         "Hypothesis markup trees with per-character style model (ANSI vs plain vs tag-stripped differential), exhaustive style x supply-way enumeration against an independent SGR table, reflected line writers, Hypothesis indentation programs against an indent-stack model",
         "Generated balanced markup is rendered by both formatters and through decorated/undecorated outputs and compared per character "
         "with the intended text and style; all 41472 styles x 3 ways of supplying them; every line-writing method; nested indentation "
-        "scopes with exceptional exits compared with a model of the whole stream.",
+        "scopes with exceptional exits compared with a model of the whole stream. Messages are also formatted with a per-call style; StyleSet edit histories; styles added after first use; indentation calls not used as scopes.",
         "DESIGN.md 4 C11",
         "",
     ),
@@ -98,7 +98,7 @@ CLAIMED = {
         "Generated trees with unique names, options and arguments of every kind (descriptions absent/short/long/multi-line, typed defaults, "
         "help texts) under the default application config at widths from the computed minimum to 200, ANSI and plain: every page renders "
         "(twice, identically), lists all non-hidden commands, arguments and options with both names and no hidden/disabled command, keeps "
-        "every line within the width, and the three ways of asking for help through run() print the page of the selected command.",
+        "every line within the width, and the three ways of asking for help through run() print the page of the selected command. Application pages also vary display name, version and help text; option name preferences; re-rendering after other widths.",
         "DESIGN.md 4 C13",
         "",
     ),
@@ -107,7 +107,7 @@ CLAIMED = {
         "Generated tables (1-6 x 1-6, size-biased cells up to 1500 characters, long words, tagged words, header or not) in the four "
         "predefined styles and customised variants with visible padding / separators, alignments, widths 20-200, indentation 0-8, ANSI "
         "and plain: render succeeds, all lines equally wide and within the terminal, separators at the same positions in every line, "
-        "every column's characters read back in order, table unmodified, second render identical.",
+        "every column's characters read back in order, table unmodified, second render identical. The same table object is rendered repeatedly and at another width in between; rows are supplied through add_rows / set_rows / add_row / set_row.",
         "DESIGN.md 4 C14",
         "Known finding (KNOWN-FINDING line): a tagged word cut by the format-unaware wrapper prints its tag literally.",
     ),
@@ -115,7 +115,7 @@ CLAIMED = {
         "explicit-state enumeration of section operation sequences + Hypothesis sequences, emitted bytes replayed on a terminal emulator and compared with a stacked-contents model",
         "All applicable sequences of create/write_line/overwrite/clear/clear(k) over up to 3 sections (depth 5 quick, 6-7 thorough) at "
         "terminal width 10 and random ones up to 40 ops at widths 5-20; after every op the emulated screen and cursor must equal the "
-        "model's stacked section contents; the same sequences on a plain output must give plain appended lines.",
+        "model's stacked section contents; the same sequences on a plain output must give plain appended lines. Also on indented outputs, with writes suppressed by the verbosity gate, and with a PlainFormatter on a stream that claims ANSI support.",
         "DESIGN.md 4 C15",
         "The terminal emulator (vf/term.py) defines the terminal semantics assumed (deferred auto-wrap, tab stops of 8).",
     ),
